@@ -189,7 +189,9 @@ def run(report, tier):
     E.setup_report(report, "C01")
     backends = ["f64", "dec"]
     import concurrent.futures as cf
-    keys = E.dump_worlds(backends)
+    keys = E.dump_worlds(backends, fixture=True)
+    from props import synthdefs as _sd
+    rgen.EXTRA_SRC = _sd.SYNTH_RS
     pool = mpool.Pool(jobs=max(2, common.ncpu() - 6))
     ex_ = cf.ThreadPoolExecutor(max_workers=1)
     fut = ex_.submit(kani_identity, report, tier)
